@@ -35,6 +35,9 @@ def check(run):
         run.guard("C16.2.bin-pairing", cfg, lambda: rule_pairing(run, F, cfg))
         run.guard("C16.3.populate-before-prune", cfg, lambda: rule_order(run, F, cfg))
         run.guard("C16.4.storing", cfg, lambda: rule_store(run, F, cfg))
+        run.guard("C16.4.storing", cfg + "/kind", lambda: rule_kind_table(run, F, cfg))
+        run.guard("C16.6.blanket-script-exception", cfg, lambda: rule_blanket_flag(run, F, cfg))
+        run.guard("C16.7.label-walk", cfg, lambda: rule_label_walk(run, F, cfg))
         run.guard("C16.5.generichide", cfg, lambda: rule_generichide(run, F, cfg))
         b = run.borrow("C08", why="per-hostname cosmetic rules and exceptions must survive serialize/deserialize")
         run.guard("C16.via.C08.3.legacy-bijection", cfg, lambda: _C08.rule_legacy(b, F, cfg))
@@ -282,3 +285,108 @@ def rule_generichide(run, F, cfg):
     pr = g.calls(r"NetworkFilterList::check$")
     run.ob("C16.5.generichide", "probes-generic_hide-list", len(pr) == 1 and g.expr_operand(pr[0][1]["args"][0]).endswith(".generic_hide"),
            "check_generic_hide probes the generic_hide list", config=cfg)
+
+
+def rule_kind_table(run, F, cfg):
+    """store_rule: (script_inject, has plain selector, has action) -> stored kind, as a truth table"""
+    from analysis.pathinterp import enumerate_paths
+    import itertools
+    f = F.fn("cosmetic_filter_cache::HostnameRuleDb::store_rule")
+    run.touched(f)
+    rows = []
+    unknown = set()
+    for p in enumerate_paths(f):
+        if p.end not in ("return",) and not p.end.startswith("backedge"):
+            continue
+        a = {}
+        for e, v in p.conds:
+            if "Iterator>::next(" in e:
+                continue
+            m = re.match(r"^(discr\()?\(filters::cosmetic::_::contains\(arg:rule\.mask, filters::cosmetic::CosmeticFilterMask::SCRIPT_INJECT=\d+\), .*\)\.(\d)\)?$", e)
+            if m:
+                val = v if isinstance(v, int) else (1 if v[1] == (0,) else 0 if v[1] == (1,) else None)
+                a[{"0": "S", "1": "P", "2": "A"}[m.group(2)]] = val
+            elif re.search(r"CosmeticFilterMask::UNHIDE", e):
+                pass
+            else:
+                unknown.add(e[:100])
+        kinds = [st["rv"]["variant"] for b in p.blocks for st in f.blocks[b]["s"]
+                 if st["k"] == "assign" and st["rv"]["k"] == "agg" and str(st["rv"].get("adt", "")).endswith("SpecificFilterType")]
+        rows.append((a, tuple(kinds)))
+    okp = not unknown and len(rows) >= 5
+    run.ob("C16.4.storing", "kind-table:modelled", okp,
+           f"every decision of store_rule before the kind is chosen is over (script_inject, plain selector, action) "
+           f"or the UNHIDE bit; unmodelled: {sorted(unknown)[:3]}", status=None if okp else "UNDISCHARGED", config=cfg)
+    bad = []
+    if okp:
+        for S, P, A in itertools.product((0, 1), repeat=3):
+            got = {k for a, k in rows if a.get("S", S) == S and a.get("P", P) == P and a.get("A", A) == A}
+            if S == 0:
+                want = {("Hide",)} if (P == 1 and A == 0) else {("ProceduralOrAction",)}
+            else:
+                want = {("InjectScript",)} if (P == 1 and A == 0) else {()}
+            if got != want:
+                bad.append(((S, P, A), sorted(got), sorted(want)))
+    run.ob("C16.4.storing", "kind-table", okp and not bad,
+           "store_rule files a rule as Hide iff !script_inject && plain selector && no action; InjectScript iff "
+           "script_inject && plain selector && no action; ProceduralOrAction for every other non-script rule; and "
+           f"stores nothing for the impossible script shapes (differences: {bad[:2]})", site=f.loc(0), config=cfg)
+
+
+def rule_blanket_flag(run, F, cfg):
+    """`#@#+js()` (empty name) clears all injections; the flag that short-circuits later exceptions starts
+    false and is raised only there (if it started true, no scriptlet exception would ever be applied)"""
+    f = F.fn("cosmetic_filter_cache::CosmeticFilterCache::hostname_cosmetic_resources")
+    lv = [l for l, n in f.varnames.items() if n == "except_all_scripts"]
+    if len(lv) != 1:
+        # the flag is an optimisation; without it the removals must simply be unconditional
+        rm = [(b, dominating_conditions(f, b, render=f.vexpr_operand)) for b, t in f.calls(r"HashMap::remove$")]
+        ok = bool(rm) and all(not any("except" in k for k in c) for b, c in rm)
+        run.ob("C16.6.blanket-script-exception", "no-flag", ok, "no short-circuit flag: removals are unconditional", config=cfg)
+        return
+    writes = []
+    for b, i, st in f.statements():
+        if st["k"] == "assign" and not st["pl"]["p"] and st["pl"]["l"] == lv[0]:
+            c = dominating_conditions(f, b, render=f.vexpr_operand)
+            empty = [v for k, v in c.items() if re.search(r"is_empty\(", k)]
+            writes.append((f.vexpr_rvalue(st["rv"]), empty[0] if empty else None))
+    init_ok = ("false", None) in writes and ("true", None) not in writes
+    raised_ok = all(w == ("false", None) or (w[0] == "true" and w[1] == 1) or w[0] == "false" for w in writes)
+    clears = [(b, dominating_conditions(f, b, render=f.vexpr_operand)) for b, t in f.calls(r"HashMap::clear$")]
+    clear_ok = len(clears) == 1 and any(re.search(r"is_empty\(", k) and v == 1 for k, v in clears[0][1].items())
+    rm = [(b, dominating_conditions(f, b, render=f.vexpr_operand)) for b, t in f.calls(r"HashMap::remove$")]
+    rm_ok = len(rm) == 1 and rm[0][1].get("$except_all_scripts") == 0
+    run.ob("C16.6.blanket-script-exception", "flag-discipline", init_ok and raised_ok and clear_ok and rm_ok,
+           "except_all_scripts starts false, is set to true only where the exception's name is empty (together with "
+           "script_injections.clear()), and a named exception is removed exactly when the flag is not raised "
+           f"(writes {writes})", site=f.loc(0), config=cfg)
+
+
+def rule_label_walk(run, F, cfg):
+    """get_hashes_from_labels hashes exactly the dot-separated suffixes hostname[dot+1..end] for every dot left
+    of start_of_domain, and hostname[..end] itself (what the rule side stores are hashes of whole hostnames /
+    entities, so a different slice never meets a stored key)"""
+    g = F.fn("filters::cosmetic::get_hashes_from_labels")
+    run.touched(g)
+    hashed = sorted(g.vexpr_operand(t["args"][0]) for b, t in g.calls(r"^utils::fast_hash$"))
+    want = sorted(["core::str::traits::index($hostname, std::ops::Range::Range{start: ($dot_ptr AddWithOverflow 1).0, end: $end})",
+                   "core::str::traits::index($hostname, std::ops::RangeTo::RangeTo{end: $end})"])
+    hashed_n = [re.sub(r"<str as std::ops::Index<[^>]*>>::index|core::str::traits::<impl std::ops::Index<[^>]*> for str>::index", "core::str::traits::index", h) for h in hashed]
+    run.ob("C16.7.label-walk", "hashed-slices", hashed_n == want,
+           f"the hashed slices are hostname[dot_ptr+1..end] and hostname[..end] (found {hashed_n})", site=g.loc(0), config=cfg)
+    fr = [g.vexpr_call(t) for b, t in g.calls(r"find_char_reverse$|memchr::memrchr$")]
+    fr_n = [re.sub(r"<str as std::ops::Index<[^>]*>>::index|core::str::traits::<impl std::ops::Index<[^>]*> for str>::index", "core::str::traits::index", x) for x in fr]
+    ok = len(fr_n) == 1 and fr_n[0] in ("memchr::memrchr(46, core::str::as_bytes(core::str::traits::index($hostname, std::ops::RangeTo::RangeTo{end: $dot_ptr})))", "utils::find_char_reverse(46, core::str::as_bytes(core::str::traits::index($hostname, std::ops::RangeTo::RangeTo{end: $dot_ptr})))")
+    upd = [g.vexpr_rvalue(st["rv"]) for b, i, st in g.statements()
+           if st["k"] == "assign" and not st["pl"]["p"] and g.varnames.get(st["pl"]["l"]) == "dot_ptr"]
+    run.ob("C16.7.label-walk", "walk", ok and sorted(upd) == ["$dot_index", "$start_of_domain"],
+           f"the walk searches the previous '.' in hostname[..dot_ptr], starting at start_of_domain and moving dot_ptr "
+           f"to each dot found (search {fr_n}, dot_ptr updates {upd})", config=cfg)
+    # callers: hostname hashes over the whole hostname down to the registrable domain; entity hashes over the
+    # hostname without its public suffix
+    h = F.fn("filters::cosmetic::get_hostname_hashes_from_labels")
+    hc = [h.vexpr_call(t) for b, t in h.calls(r"get_hashes_from_labels$")]
+    okh = len(hc) == 1 and bool(re.match(r"^filters::cosmetic::get_hashes_from_labels\(\$hostname, core::str::len\(\$hostname\), "
+                                         r"\(core::str::len\(\$hostname\) SubWithOverflow core::str::len\(\$domain\)\)\.0\)$", hc[0]))
+    run.ob("C16.7.label-walk", "hostname-caller", okh,
+           f"hostname hashes: get_hashes_from_labels(hostname, hostname.len(), hostname.len() - domain.len()) ({hc})", config=cfg)
